@@ -60,6 +60,7 @@ def run(check: Check, repo: Repo, tier: str) -> None:
     check.floor("ATTR-MEMO", 1, "object-attribute memos")
     X.collect_guard(check, repo)
     X.visited_then_collected(check, repo)
+    X.resolver_args_fresh(check, repo)
     X.source_siblings(check, repo)
     X.leaf_always_coerced(check, repo)
     from rules import stream_rules as T5
